@@ -1,5 +1,6 @@
 (* Props_C11.v — C11: suspicion timeout takes effect iff unrefuted; Down is final until forgotten. *)
-From Foca Require Import Laws MembersM FocaM L_Members L_MembersInv L_Join L_Forward L_Reject L_Timeout.
+From Foca Require Import Laws L_Lists MembersM FocaM L_Members L_MembersInv L_Join L_Forward L_Reject L_Timeout.
+From Coq Require Import Permutation.
 
 Section C11.
 Context {Id Addr : Type} {IO : IdOps Id Addr} {CO : CodecOps Id} {HO : HandlerOps Id}.
@@ -47,9 +48,30 @@ Theorem C11_down_final (rnd : oracle) (l : list (member Id)) (ms : @members Id) 
   (m_id k' = m_id k /\ m_state k' = Down) \/ wins (m_id k') (m_id k) = true.
 Proof. exact (down_final rnd l ms n a k k'). Qed.
 
+(* FORGETTING: the forget-timer of identity x does nothing but remove a record, and only one that
+   is exactly (x, Down): every other record - in particular a Down record of a newer identity of the
+   same address - stays; with no such record the timer has no effect at all *)
+Theorem C11_forget_exact (rnd : oracle) (f : @foca Id Addr HO) (x : Id) :
+  step rnd f (ITimer (TRemoveDown x)) = (set_mems f (fst (remove_if_down (mems f) x)), [], Done, 0)
+  /\ ((exists r, m_id r = x /\ m_state r = Down
+                 /\ Permutation (r :: inner (fst (remove_if_down (mems f) x))) (inner (mems f)))
+      \/ (fst (remove_if_down (mems f) x) = mems f
+          /\ forall r, In r (inner (mems f)) -> ~ (m_id r = x /\ m_state r = Down))).
+Proof.
+  split; [reflexivity|]. unfold remove_if_down.
+  destruct (find_index _ (inner (mems f))) as [p|] eqn:F; cbn [fst].
+  - left. destruct (find_index_Some _ _ _ F) as (r & Hr & Pr & _).
+    apply andb_true_iff in Pr. destruct Pr as [P1 P2]. exists r. split; [apply id_eqb_eq; exact P1|].
+    split; [destruct (m_state r); cbn in P2; congruence|]. cbn [inner]. apply swap_remove_perm. exact Hr.
+  - right. split; [reflexivity|]. intros r Hin [E1 E2].
+    pose proof (proj1 (find_index_None _ _) F r Hin) as N. cbn in N.
+    rewrite E1, E2 in N. rewrite (proj2 (id_eqb_eq x x) eq_refl) in N. cbn in N. discriminate.
+Qed.
+
 End C11.
 
 Print Assumptions C11_stale_epoch_noop.
 Print Assumptions C11_cancelled_noop.
 Print Assumptions C11_effective.
 Print Assumptions C11_down_final.
+Print Assumptions C11_forget_exact.
